@@ -132,6 +132,11 @@ inductive SeqItem where
   | decl (scope : Nat) (c : TCand)
   /-- the definition of an ordinary function declared earlier -/
   | define (id : Nat)
+  /-- a later declaration (prototype or definition) of the ordinary function `id` declared earlier whose parameters
+      from `nd` on carry default values - possibly other ones than in the first declaration.  `check_existing_functions`
+      compares `param_types` only and hands back the first declaration's id: the later signature, and with it its
+      `non_default_params`, is dropped -/
+  | redecl (id : Nat) (nd : Nat)
   /-- a function whose body calls the name: lookup mode (0 `f(..)` at the root, 1 `N::f(..)` at the root, 2 `f(..)`
       inside `namespace N`, 3 `::f(..)` inside `namespace N`; methods: 0 / 1 a call of `S::f` from a sibling method /
       from outside, 2 / 3 the same for `S2::f`), explicit template arguments, argument types -/
@@ -242,6 +247,7 @@ def seqStep (p : SeqPath) (st : SeqState) : SeqItem → SeqState × Option SiteO
       else if s = 1 then ({ st with ns := st.ns ++ k.syms }, none)
       else (st, none)
   | .define _ => (st, none)
+  | .redecl _ _ => (st, none)
   | .site m x a => (st, some (siteObs (st.visible p m) x a))
   | .helper j m a => ({ st with helpers := st.helpers ++ [(j, m, a)] }, none)
   | .trigger j z =>
